@@ -80,14 +80,20 @@ pub struct Tuple {
     pub plans: [String; 3],
     /// use the `fml` wrapper script for the whole pipeline (goes through JSON files)
     pub wrapper: bool,
+    /// name of the source file (dots, blanks, non-ASCII, no extension: derived names under -o DIR depend on it)
+    pub input_name: String,
+    /// longer stale files already sit at the `-o FILE` paths of parse and compile (durable state of an earlier run)
+    pub stale: bool,
     pub hash_seed: u64,
 }
+
+pub const INPUT_NAMES: &[&str] = &["prog.fml", "prog.fml", "job.1.fml", "my prog.fml", "prog.v2.final.fml", "прог.fml", "noext", "a.b", "UPPER.FML", "x.json.fml", "trailing.dot..fml"];
 
 impl Tuple {
     pub fn to_json(&self) -> Value {
         json!({"format": self.format.ext(), "parse_flag": self.parse_flag, "parse_stdin": self.parse_stdin, "parse_out": self.parse_out.name(),
                "compile_flag": self.compile_flag, "compile_stdin": self.compile_stdin, "compile_out": self.compile_out.name(), "exec_stdin": self.exec_stdin,
-               "profile": self.profile.name(), "plans": self.plans, "wrapper": self.wrapper, "hash_seed": self.hash_seed})
+               "profile": self.profile.name(), "plans": self.plans, "wrapper": self.wrapper, "input_name": self.input_name, "stale": self.stale, "hash_seed": self.hash_seed})
     }
     pub fn from_json(v: &Value) -> Option<Tuple> {
         let plans = v.get("plans")?.as_array()?;
@@ -103,6 +109,8 @@ impl Tuple {
             profile: Profile::from_name(v.get("profile")?.as_str()?)?,
             plans: [plans.get(0)?.as_str()?.to_string(), plans.get(1)?.as_str()?.to_string(), plans.get(2)?.as_str()?.to_string()],
             wrapper: v.get("wrapper")?.as_bool()?,
+            input_name: v.get("input_name").and_then(|x| x.as_str()).unwrap_or("prog.fml").to_string(),
+            stale: v.get("stale").and_then(|x| x.as_bool()).unwrap_or(false),
             hash_seed: v.get("hash_seed")?.as_u64()?,
         })
     }
@@ -138,13 +146,16 @@ impl Tuple {
             profile: if rng.coin() { Profile::Debug } else { Profile::Release },
             plans,
             wrapper: false,
+            input_name: (*rng.pick(INPUT_NAMES)).to_string(),
+            stale: rng.below(4) == 0,
             hash_seed: rng.next_u64(),
         }
     }
 
     pub fn plain(format: Fmt, profile: Profile) -> Tuple {
         Tuple { format, parse_flag: Some(format.ext().to_string()), parse_stdin: false, parse_out: Chan::OFile, compile_flag: None, compile_stdin: false,
-                compile_out: Chan::OFile, exec_stdin: false, profile, plans: [String::new(), String::new(), String::new()], wrapper: false, hash_seed: 11 }
+                compile_out: Chan::OFile, exec_stdin: false, profile, plans: [String::new(), String::new(), String::new()], wrapper: false,
+                input_name: "prog.fml".into(), stale: false, hash_seed: 11 }
     }
 }
 
@@ -237,7 +248,8 @@ fn count_faults(trace: &str) -> u64 {
 
 pub fn run_staged(source: &str, t: &Tuple) -> Staged {
     let dir = scratch_dir();
-    std::fs::write(dir.join("prog.fml"), source).unwrap();
+    let input_name: &str = if t.wrapper { "prog.fml" } else { t.input_name.as_str() };
+    std::fs::write(dir.join(input_name), source).unwrap();
     let mut st = Staged { ast_bytes: None, bc_bytes: None, exec: None, failed: None, children: 0, faults_fired: 0, budget_exceeded: false };
     let ext = t.format.ext();
     if t.wrapper {
@@ -262,24 +274,29 @@ pub fn run_staged(source: &str, t: &Tuple) -> Staged {
     }
     // ---- parse ------------------------------------------------------------------------------
     let mut args: Vec<String> = vec!["parse".into()];
-    if !t.parse_stdin { args.push("prog.fml".into()); }
+    if !t.parse_stdin { args.push(input_name.to_string()); }
     if let Some(f) = &t.parse_flag {
         if st.children % 2 == 0 && f.len() % 2 == 0 { args.push(format!("--format={}", f)); } else { args.push("--format".into()); args.push(f.clone()); }
     }
     let ast_location: Option<String> = match t.parse_out {
-        Chan::OFile => { args.push("-o".into()); args.push(format!("tree.{}", ext)); Some(format!("tree.{}", ext)) }
+        Chan::OFile => {
+            if t.stale { std::fs::write(dir.join(format!("tree.{}", ext)), "stale ".repeat(source.len() * 4 + 200)).unwrap(); }
+            args.push("-o".into());
+            args.push(format!("tree.{}", ext));
+            Some(format!("tree.{}", ext))
+        }
         Chan::ODir => {
             std::fs::create_dir_all(dir.join("astdir")).unwrap();
             args.push("-o".into());
             args.push("astdir".into());
-            Some(format!("astdir/{}.{}", if t.parse_stdin { "ast" } else { "prog" }, ext))
+            Some("astdir/".to_string()) // the tool derives the name: discovered by listing the (initially empty) directory
         }
         Chan::StdoutFile => Some(format!("redirected.{}", ext)),
         Chan::StdoutPipe => None,
     };
     let argv: Vec<&str> = args.iter().map(|s| s.as_str()).collect();
     let mut c = Child::new(t.profile, &argv);
-    if t.parse_stdin { c.stdin = In::File("prog.fml".into()); }
+    if t.parse_stdin { c.stdin = In::File(input_name.to_string()); }
     match t.parse_out {
         Chan::StdoutFile => c.stdout = Out::File(format!("redirected.{}", ext)),
         Chan::StdoutPipe => c.stdout = Out::Pipe,
@@ -295,6 +312,19 @@ pub fn run_staged(source: &str, t: &Tuple) -> Staged {
         let _ = std::fs::remove_dir_all(&dir);
         return st;
     }
+    // -o DIR: exactly one file must have appeared
+    let ast_location: Option<String> = match ast_location {
+        Some(p) if p.ends_with('/') => {
+            let names = list_dir(&dir.join("astdir"));
+            if names.len() != 1 {
+                st.failed = Some(StageFail { stage: "parse", exit: r.exit.clone(), message: format!("exit 0 with -o DIR, but the directory now holds {} files: {:?}", names.len(), names) });
+                let _ = std::fs::remove_dir_all(&dir);
+                return st;
+            }
+            Some(format!("astdir/{}", names[0]))
+        }
+        other => other,
+    };
     let ast_bytes = match &ast_location {
         Some(p) => match std::fs::read(dir.join(p)) {
             Ok(b) => b,
@@ -321,15 +351,17 @@ pub fn run_staged(source: &str, t: &Tuple) -> Staged {
     if !t.compile_stdin { args.push(ast_file.clone()); }
     if let Some(f) = &t.compile_flag { args.push("--input-format".into()); args.push(f.clone()); }
     let bc_location: Option<String> = match t.compile_out {
-        Chan::OFile => { args.push("-o".into()); args.push("image.bc".into()); Some("image.bc".into()) }
+        Chan::OFile => {
+            if t.stale { std::fs::write(dir.join("image.bc"), vec![0xEEu8; source.len() * 8 + 4096]).unwrap(); }
+            args.push("-o".into());
+            args.push("image.bc".into());
+            Some("image.bc".into())
+        }
         Chan::ODir => {
             std::fs::create_dir_all(dir.join("bcdir")).unwrap();
             args.push("-o".into());
             args.push("bcdir".into());
-            let stem = if t.compile_stdin { "ast".to_string() } else {
-                std::path::Path::new(&ast_file).file_stem().unwrap().to_str().unwrap().to_string()
-            };
-            Some(format!("bcdir/{}.bc", stem))
+            Some("bcdir/".to_string())
         }
         Chan::StdoutFile => Some("redirected.bc".into()),
         Chan::StdoutPipe => None,
@@ -348,6 +380,18 @@ pub fn run_staged(source: &str, t: &Tuple) -> Staged {
         let _ = std::fs::remove_dir_all(&dir);
         return st;
     }
+    let bc_location: Option<String> = match bc_location {
+        Some(p) if p.ends_with('/') => {
+            let names = list_dir(&dir.join("bcdir"));
+            if names.len() != 1 {
+                st.failed = Some(StageFail { stage: "compile", exit: r.exit.clone(), message: format!("exit 0 with -o DIR, but the directory now holds {} files: {:?}", names.len(), names) });
+                let _ = std::fs::remove_dir_all(&dir);
+                return st;
+            }
+            Some(format!("bcdir/{}", names[0]))
+        }
+        other => other,
+    };
     let bc_bytes = match &bc_location {
         Some(p) => match std::fs::read(dir.join(p)) {
             Ok(b) => b,
@@ -375,6 +419,62 @@ pub fn run_staged(source: &str, t: &Tuple) -> Staged {
     st.exec = Some(r);
     let _ = std::fs::remove_dir_all(&dir);
     st
+}
+
+fn list_dir(d: &std::path::Path) -> Vec<String> {
+    let mut v: Vec<String> = std::fs::read_dir(d).map(|rd| rd.filter_map(|e| e.ok()).map(|e| e.file_name().to_string_lossy().to_string()).collect()).unwrap_or_default();
+    v.sort();
+    v
+}
+
+/// A batch into one output directory: two different programs whose file names differ only in an inner
+/// component (`job.1.fml`, `job.2.fml`) are parsed with -o DIR and compiled with -o DIR. Each stage must leave
+/// one file per program, and the first program's file must still be the first program after the second
+/// went through — otherwise a later stage is handed a different program.
+pub fn batch_collision(a: &Prepared, b: &Prepared, f: Fmt, profile: Profile, seed: u64) -> Option<(String, String)> {
+    let dir = scratch_dir();
+    let cleanup = |d: &std::path::Path| { let _ = std::fs::remove_dir_all(d); };
+    std::fs::write(dir.join("job.1.fml"), &a.source).unwrap();
+    std::fs::write(dir.join("job.2.fml"), &b.source).unwrap();
+    std::fs::create_dir_all(dir.join("asts")).unwrap();
+    std::fs::create_dir_all(dir.join("bcs")).unwrap();
+    let run = |args: &[&str]| {
+        let mut c = Child::new(profile, args);
+        c.shim = Some(ShimCfg { seed, ..Default::default() });
+        run_child(&dir, &c)
+    };
+    let r1 = run(&["parse", "job.1.fml", "--format", f.ext(), "-o", "asts"]);
+    let after1 = list_dir(&dir.join("asts"));
+    let r2 = run(&["parse", "job.2.fml", "--format", f.ext(), "-o", "asts"]);
+    let after2 = list_dir(&dir.join("asts"));
+    if !r1.exit.is_success() || !r2.exit.is_success() || after1.len() != 1 { cleanup(&dir); return None; } // refusal: decided by the single-program pipelines
+    if after2.len() != 2 {
+        cleanup(&dir);
+        return Some(("O6:batch_outputs_collide".into(), format!("parse -o DIR of job.1.fml and job.2.fml ({}) left {:?}: the second program replaced the first", f.ext(), after2)));
+    }
+    let first = after1[0].clone();
+    let text = std::fs::read_to_string(dir.join("asts").join(&first)).unwrap_or_default();
+    let reload = catch(|| f.serializer().deserialize(&text).ok()).ok().flatten();
+    if reload.as_ref() != Some(&a.ast) {
+        cleanup(&dir);
+        return Some(("O6:batch_outputs_collide".into(), format!("asts/{} no longer holds the first program's AST after the second program was parsed into the same directory", first)));
+    }
+    let second = after2.iter().find(|n| **n != first).cloned().unwrap_or_default();
+    let c1 = run(&["compile", &format!("asts/{}", first), "-o", "bcs"]);
+    let bc_after1 = list_dir(&dir.join("bcs"));
+    let c2 = run(&["compile", &format!("asts/{}", second), "-o", "bcs"]);
+    let bc_after2 = list_dir(&dir.join("bcs"));
+    if !c1.exit.is_success() || !c2.exit.is_success() || bc_after1.len() != 1 { cleanup(&dir); return None; }
+    if bc_after2.len() != 2 {
+        cleanup(&dir);
+        return Some(("O6:batch_outputs_collide".into(), format!("compile -o DIR of {} and {} left {:?}: the second image replaced the first", first, second, bc_after2)));
+    }
+    let bytes = std::fs::read(dir.join("bcs").join(&bc_after1[0])).unwrap_or_default();
+    cleanup(&dir);
+    if bytes != a.reference {
+        return Some(("O6:batch_outputs_collide".into(), format!("bcs/{} no longer holds the first program's image after the second program was compiled into the same directory", bc_after1[0])));
+    }
+    None
 }
 
 pub fn run_direct(source: &str, profile: Profile, seed: u64) -> ChildResult {
@@ -629,6 +729,8 @@ fn exercise(name: &str, spec: &ProgSpec, rng: &mut Rng, n_tuples: usize) -> Out1
         if t.compile_stdin { out.counters.push(("compile_from_stdin".into(), 1)); }
         if t.exec_stdin { out.counters.push(("execute_from_stdin".into(), 1)); }
         if t.wrapper { out.counters.push(("wrapper_script_runs".into(), 1)); }
+        if t.stale { out.counters.push(("pipelines_over_stale_output_files".into(), 1)); }
+        out.counters.push((format!("input_name.{}", t.input_name), 1));
         if st.faults_fired > 0 { out.counters.push(("pipelines_with_transient_faults_fired".into(), 1)); }
         if direct.exit.is_clean_failure() { out.counters.push(("programs_failing_at_run_time".into(), 1)); }
         if let Some(v) = judge(&prep, &t, direct, &st) {
@@ -665,6 +767,29 @@ pub fn run(seed: u64, tier: &str, ev: &mut Evidence) -> Vec<Violation> {
         let mut rng = Rng::for_case(seed, "C06", ENGINE, i as u64);
         exercise(&specs[i].0, &specs[i].1, &mut rng, n_tuples)
     });
+    // ---- batches into one output directory -----------------------------------------------------
+    let n_batches = if thorough { 3000usize } else { 90 };
+    let gen_lo = specs.iter().position(|(n, _)| n.starts_with("gen:")).unwrap_or(0);
+    let batch_out: Vec<Option<(Value, String, String)>> = par_map(n_batches, |k| {
+        let mut rng = Rng::for_case(seed, "C06", "batch", k as u64);
+        let i = gen_lo + rng.usize_below(n_gen.max(2) - 1);
+        let (sa, sb) = (&specs[i].1, &specs[i + 1].1);
+        let (a, b) = match (sa.source().and_then(|s| prepare(&s)), sb.source().and_then(|s| prepare(&s))) { (Some(a), Some(b)) => (a, b), _ => return None };
+        if a.ast == b.ast { return None; }
+        let f = *rng.pick(&Fmt::ALL);
+        let profile = if rng.coin() { Profile::Debug } else { Profile::Release };
+        batch_collision(&a, &b, f, profile, 23).map(|(o, d)| (json!({"engine": ENGINE, "kind": "batch", "program_a": sa.to_json(), "program_b": sb.to_json(), "format": f.ext(), "profile": profile.name()}), o, d))
+    });
+    let mut batch_violations: Vec<Violation> = Vec::new();
+    for b in batch_out.into_iter() {
+        ev.evaluations += 1;
+        if let Some((replay, o, d)) = b {
+            if batch_violations.is_empty() {
+                batch_violations.push(Violation { property: "C06".into(), oracle: o.clone(), detail: d, signature: json!({"engine": ENGINE, "oracle": o, "kind": "batch"}), replay });
+            }
+        }
+    }
+    ev.count("batches_of_two_programs_into_one_output_directory", n_batches as u64);
     let mut raw: Vec<(Case, Verdict)> = Vec::new();
     let (mut children, mut faults) = (0u64, 0u64);
     for o in outs {
@@ -682,7 +807,7 @@ pub fn run(seed: u64, tier: &str, ev: &mut Evidence) -> Vec<Violation> {
     // one report per (oracle, format, stage, message head); known findings are matched later by signature
     let known = super::report::load_known_findings();
     let mut seen: Vec<String> = Vec::new();
-    let mut violations = Vec::new();
+    let mut violations = batch_violations;
     for (case, v) in raw {
         let msg = v.signature.get("message").and_then(|m| m.as_str()).unwrap_or("");
         // a case that matches a recorded finding must never shadow one that does not: the flag is part of the key
@@ -707,6 +832,15 @@ pub fn run(seed: u64, tier: &str, ev: &mut Evidence) -> Vec<Violation> {
 }
 
 pub fn replay(v: &Value) -> Result<Option<(String, String)>, String> {
+    if v.get("kind").and_then(|k| k.as_str()) == Some("batch") {
+        let sa = ProgSpec::from_json(v.get("program_a").ok_or("no program_a")?).ok_or("bad program_a")?;
+        let sb = ProgSpec::from_json(v.get("program_b").ok_or("no program_b")?).ok_or("bad program_b")?;
+        let a = sa.source().and_then(|s| prepare(&s)).ok_or("program_a does not compile")?;
+        let b = sb.source().and_then(|s| prepare(&s)).ok_or("program_b does not compile")?;
+        let f = Fmt::from_ext(v.get("format").and_then(|x| x.as_str()).unwrap_or("json")).ok_or("bad format")?;
+        let profile = Profile::from_name(v.get("profile").and_then(|x| x.as_str()).unwrap_or("debug")).ok_or("bad profile")?;
+        return Ok(batch_collision(&a, &b, f, profile, 23));
+    }
     let case = Case::from_json(v).ok_or("malformed staged-pipeline replay")?;
     Ok(replay_case(&case)?.map(|v| (v.oracle, v.detail)))
 }
